@@ -8,5 +8,6 @@ CONSTANTS
   CrcModel = "atomic"
   IgnoreSigpipe = TRUE
   Cap = 2
+  Buffered = FALSE
   Gaps = "all"
   Emit = TRUE
